@@ -221,6 +221,7 @@ def run_batch(ctx, case):
             ctx.require(got_b.shape == want_b.shape and np.array_equal(got_b, want_b), f'batch str_to_F2 with a broadcast sign array ({kind_})')
         ctx.label('broadcast signs')
     s2, sg2 = nq.gate.pauli_F2_to_str(f2_ref)
+    ctx.require(isinstance(s2, np.ndarray) and s2.shape == shape and np.shape(sg2) == shape, 'batch F2_to_str keeps the batch shape (also for a batch of one)', f'{type(s2).__name__} {np.shape(s2)} vs {shape}')
     ctx.require(s2.shape == shape and s2.reshape(-1).tolist() == strs, 'batch F2_to_str string')
     ctx.close(sg2, signs, 1e-12, 'batch F2_to_str sign')
     ctx.require(np.array_equal(f2_ref, f2_c) and np.array_equal(idx_arr.reshape(-1), np.array(idx_ref, dtype=np.uint64)) and arr_s.reshape(-1).tolist() == strs,
